@@ -101,7 +101,7 @@ class Prov:
 
         return T().visit(copy.deepcopy(expr))
 
-    def alternatives(self, name, at_stmt, stop=()):
+    def alternatives(self, name, at_stmt, stop=(), strip=True):
         """canonical text of every definition of local `name` that may reach at_stmt (None when one is not a plain assignment)"""
         out = set()
         for d in self.defs_at(at_stmt, name) or []:
@@ -110,11 +110,11 @@ class Prov:
                 continue
             st = self.cfg.stmt[d]
             if isinstance(st, ast.Assign) and len(st.targets) == 1 and isinstance(st.targets[0], ast.Name) and self.cfg.kind[d] == "stmt":
-                out.add(self.canon(st.value, st, stop=stop))
+                out.add(self.canon(st.value, st, stop=stop, strip=strip))
             elif isinstance(st, ast.Assign) and len(st.targets) == 1 and isinstance(st.targets[0], ast.Tuple) and self.cfg.kind[d] == "stmt" \
                     and all(isinstance(x, ast.Name) for x in st.targets[0].elts):
                 i = [x.id for x in st.targets[0].elts].index(name)
-                out.add(f"{self.canon(st.value, st, stop=stop)}[{i}]")
+                out.add(f"{self.canon(st.value, st, stop=stop, strip=strip)}[{i}]")
             else:
                 return None
         return out
